@@ -20,7 +20,7 @@ CMDS = ["address", "export", "public-key", "sign-message", "sign-transaction", "
 REQUIRED = (["ok-" + c for c in CMDS] + ["selector-default", "selector-index-nonzero", "selector-index-2^31-1", "selector-path", "password-nonempty",
             "flags-vs-env-identical", "both-selectors-flag+flag-refused", "both-selectors-flag+env-refused", "both-selectors-env+env-refused",
             "input-file", "input-stdin", "sign-raw-digest>=n-valid", "input-stdin>64KiB", "flag-beats-environment",
-            "explicit-empty-password-flag-beats-environment"])
+            "explicit-empty-password-flag-beats-environment", "big-input-same-through-all-channels"])
 
 
 def expected_sig_text(key, digest):
@@ -128,12 +128,26 @@ def judge_conflict(case, obs):
     return v.bucket("both-selectors-%s-refused" % how)
 
 
-JUDGES = {"cmd": judge_cmd, "conflict": judge_conflict}
+def judge_same_output(case, obs):
+    """Metamorphic: the same bytes through different channels (file, stdin, /dev/stdin) give byte-identical output. Used for inputs
+    too large for the pure-Python reference hash."""
+    v = V()
+    if any(abnormal(o) or "exit" not in o for o in obs):
+        return v
+    if any(o["exit"] != 0 for o in obs):
+        return v.bad("C16/%s/big-input-failed" % case["x"]["cmd"], "exit %s on a %d-byte input: %s" % ([o["exit"] for o in obs], case["x"]["size"], obs[0]["stderr"][-100:]))
+    if len({o["stdout"] for o in obs}) != 1:
+        return v.bad("C16/%s/channel-dependent-output" % case["x"]["cmd"],
+                     "the same %d bytes give different results through file / stdin / /dev/stdin: %s" % (case["x"]["size"], [o["stdout"].strip()[:24] for o in obs]))
+    return v.bucket("big-input-same-through-all-channels")
+
+
+JUDGES = {"cmd": judge_cmd, "conflict": judge_conflict, "same": judge_same_output}
 
 
 def shards(tier, seed):
     T = tier == "thorough"
-    return [{"name": "cmds-%d" % i, "count": 1200 if T else 140} for i in range(16)]
+    return [{"name": "cmds-%d" % i, "count": 1200 if T else 140} for i in range(16)] + [{"name": "big-inputs", "sizes": [(1 << 24) + 4096, 1 << 26] if T else [(1 << 24) + 4096]}]
 
 
 def _steps_for(rng, cmd, acc, xm):
@@ -186,6 +200,16 @@ def _steps_for(rng, cmd, acc, xm):
 
 
 def gen(shard, rng, tier):
+    if shard["name"] == "big-inputs":
+        for size in shard["sizes"]:
+            data = (rand_bytes(rng, 65537) * (size // 65537 + 1))[:size]
+            hx = data.hex()
+            for cmd, argv in (("hash-data", ["hash", "data"]), ("hash-message", ["hash", "message"])):
+                steps = [{"cli": {"argv": argv + ["@FILE:big.bin@"], "files": {"big.bin": hx}}},
+                         {"cli": {"argv": argv + ["-"], "stdin_hex": hx}},
+                         {"cli": {"argv": argv + ["/dev/stdin"], "stdin_hex": hx}}]
+                yield {"j": "same", "profile": "release", "x": {"cls": "big-input", "cmd": cmd, "size": size}, "steps": steps}
+        return
     for i in range(shard["count"]):
         cmd = CMDS[(i + rng.randrange(len(CMDS))) % len(CMDS)]
         acc = cligen.rand_account(rng)
